@@ -1,7 +1,20 @@
 (** C08 — runner used by the correspondence check.  One case carries one gap
     mask (or one mask and a list of partners) and returns every observation
     the harness also takes from the real [IndelMap], in a fixed order. *)
-From CG3 Require Import Lib.PyZ Lib.Val Model.IndelMap.
+From CG3 Require Import Lib.PyZ Lib.Val Model.IndelMap Model.IndelMapFixed.
+
+(** which transcription of the four corrected methods to run ([false] = the
+    pinned code of Model/IndelMap.v, [true] = the corrected code of
+    Model/IndelMapFixed.v); chosen by the harness from the behaviour of the
+    implementation on the four witness inputs *)
+Record variant := mk_variant { v_slice : bool; v_add : bool; v_coords : bool; v_nongap : bool }.
+Definition pinned : variant := mk_variant false false false false.
+
+Definition slice_fn (v : variant) := if v_slice v then getitem_slice_v2 else getitem_slice.
+Definition int_fn (v : variant) := if v_slice v then getitem_int_v2 else getitem_int.
+Definition add_fn (v : variant) := if v_add v then add_v2 else add.
+Definition coords_fn (v : variant) := if v_coords v then get_coordinates_v2 else get_coordinates.
+Definition nongap_fn (v : variant) := if v_nongap v then nongap_v2 else nongap.
 
 Definition vpairs (l : list (Z * Z)) : val := VL (map vpairZ l).
 
@@ -37,28 +50,28 @@ Inductive case :=
 | CBinary (k : list bool) (others : list (list bool))
 | CJoin (k : list bool) (coordss : list (list (Z * Z))).
 
-Definition run_unary (k : list bool) (sl : slice_args) (idx sidx scales : list Z) : val :=
+Definition run_unary (v : variant) (k : list bool) (sl : slice_args) (idx sidx scales : list Z) : val :=
   let m := from_mask k in
   VL [ vstate m;
        VZ (len m);
        VL (map vspan (spans m));
        vmask (spans_mask m);
-       vpairs (nongap m);
-       vpairs (get_coordinates m);
+       vpairs (nongap_fn v m);
+       vpairs (coords_fn v m);
        vpairs (get_gap_coordinates m);
        vpairs (get_gap_align_coordinates m);
        VL (map (fun i => vres VZ (get_seq_index m i)) idx);
        VL (map (fun s => VL [vres VZ (get_align_index m s false); vres VZ (get_align_index m s true)]) sidx);
-       VL (map (fun ab => vres vstate (getitem_slice m (fst ab) (snd ab))) (slice_list sl));
-       VL (map (fun i => vres vstate (getitem_int m i)) (zrange 0 (len m)));
+       VL (map (fun ab => vres vstate (slice_fn v m (fst ab) (snd ab))) (slice_list sl));
+       VL (map (fun i => vres vstate (int_fn v m i)) (zrange 0 (len m)));
        vres vstate (nucleic_reversed m);
        VL (map (fun s => vres vstate (mul m s)) scales);
-       vres vstate (from_aligned_segments (nongap m) (len m));
+       vres vstate (from_aligned_segments (nongap_fn v m) (len m));
        vres vstate (gap_coords_to_map (get_gap_coordinates m) (parent_length m)) ].
 
-Definition run_pair (m1 : imap) (k2 : list bool) : val :=
+Definition run_pair (v : variant) (m1 : imap) (k2 : list bool) : val :=
   let m2 := from_mask k2 in
-  let s := add m1 m2 in
+  let s := add_fn v m1 m2 in
   VL [ vres vstate s;
        vres (fun m => vmask (spans_mask m)) s;
        vres (fun m => VZ (len m)) s;
@@ -69,13 +82,15 @@ Definition run_pair (m1 : imap) (k2 : list bool) : val :=
        vres vstate (minus_gaps m1 m2);
        vres vpairs (shared_gaps m1 m2) ].
 
-Definition run_case (c : case) : val :=
+Definition run_case_v (v : variant) (c : case) : val :=
   match c with
-  | CUnary k sl idx sidx scales => run_unary k sl idx sidx scales
-  | CBinary k others => let m1 := from_mask k in VL (map (run_pair m1) others)
+  | CUnary k sl idx sidx scales => run_unary v k sl idx sidx scales
+  | CBinary k others => let m1 := from_mask k in VL (map (run_pair v m1) others)
   | CJoin k coordss =>
       let m := from_mask k in VL (map (fun cs => vres vstate (joined_segments m cs)) coordss)
   end.
+
+Definition run_case : case -> val := run_case_v pinned.
 
 (** masks are written as strings of [1] (residue) / [0] (gap) digits *)
 Definition mk (l : list Z) : list bool := map (fun z => negb (z =? 0)) l.
